@@ -36,11 +36,16 @@ STIM_INSTR = ("attr", ("global", "stim"), "CircuitInstruction")
 
 def check(model: Model, rep: Report, tier: str):
     rep.trust("stim reports instruction.name in canonical form; alias table frozen in the checker (MZ->M, RZ->R, ZCZ->CZ, CNOT->CX, ...)")
-    n1(model, rep)
-    n2_n3(model, rep, tier)
-    n4(model, rep)
-    n5(model, rep)
-    n6(model, rep)
+    with rep.isolated():
+        n1(model, rep)
+    with rep.isolated():
+        n2_n3(model, rep, tier)
+    with rep.isolated():
+        n4(model, rep)
+    with rep.isolated():
+        n5(model, rep)
+    with rep.isolated():
+        n6(model, rep)
 
 
 def atoms_of_cond(t: Term) -> set:
